@@ -1099,8 +1099,9 @@ class Container:
             total_mass = sum(Unit.convert_from(substance, amount,
                                                'U' if substance.is_enzyme() else config.moles_storage_unit, 'g')
                              for substance, amount in solvent.contents.items())
-            total_moles = Unit.convert_from_storage(sum(amount for substance, amount in solvent.contents.items()
-                                                        if not substance.is_enzyme()), 'mol')
+            # not convert_from_storage(): it rounds to 1e-10 mol, which is not negligible for nanomoles of solvent
+            total_moles = (sum(amount for substance, amount in solvent.contents.items() if not substance.is_enzyme())
+                           * Unit.convert_prefix_to_multiplier(config.moles_storage_unit[:-3]))
             total_volume = solvent.get_volume('mL')
             if total_moles == 0 or total_volume == 0:
                 raise ValueError("Solvent must contain a non-zero amount of substance.")
@@ -1280,7 +1281,9 @@ class Container:
         volume = Unit.convert_from_storage(source.volume, 'mL')
         d_x = mass / volume
         mw_x = mass / moles
-        m_x = Unit.convert_from_storage(source.contents.get(solute, 0), 'mol') / (volume / 1000)
+        # moles per stored unit, unrounded: convert_from_storage() rounds to 1e-10 mol (a tenth of a nanomole)
+        mol_per_stored = Unit.convert_prefix_to_multiplier(config.moles_storage_unit[:-3])
+        m_x = source.contents.get(solute, 0) * mol_per_stored / (volume / 1000)
 
         if isinstance(solvent, Container):
             mass = sum(Unit.convert_from(substance, value, storage_unit(substance), 'g') for substance, value in
@@ -1290,7 +1293,7 @@ class Container:
             volume = Unit.convert_from_storage(solvent.volume, 'mL')
             d_y = mass / volume
             mw_y = mass / moles
-            m_y = Unit.convert_from_storage(solvent.contents.get(solute, 0), 'mol') / (volume / 1000)
+            m_y = solvent.contents.get(solute, 0) * mol_per_stored / (volume / 1000)
         else:
             d_y = solvent.density
             mw_y = solvent.mol_weight
